@@ -41,8 +41,8 @@ def LAST(w):
     return f"{W}[{w}][len({W}[{w}]) - 1]"
 
 
-def tiling(pos, upto='n_processors'):
-    """the partition facts for the chunks handed out so far (`pos` = rows handed out)"""
+def tiling_m(pos):
+    """the partition facts, stated with M = number of non-empty lists (cleanup, dispatch, final)"""
     return [
         f"0 <= {M} <= len({W})",
         # the non-empty lists are exactly the first M
@@ -51,7 +51,8 @@ def tiling(pos, upto='n_processors'):
         # every chunk is a non-empty row range of an overlapping file of L
         f"all({W}[w][k][0] in {D} and 0 <= {W}[w][k][1] and {W}[w][k][1] < {W}[w][k][2] "
         f"and {W}[w][k][2] <= {D}[{W}[w][k][0]] "
-        f"and 0 <= index_of({L}, {W}[w][k][0]) and index_of({L}, {W}[w][k][0]) < len({L}) "
+        f"for w in range({M}) for k in range(len({W}[w])))",
+        f"all(0 <= index_of({L}, {W}[w][k][0]) and index_of({L}, {W}[w][k][0]) < len({L}) "
         f"and {L}[index_of({L}, {W}[w][k][0])] == {W}[w][k][0] "
         f"for w in range({M}) for k in range(len({W}[w])))",
         # consecutive inside a list ...
@@ -63,6 +64,29 @@ def tiling(pos, upto='n_processors'):
         f"implies({M} >= 1, {GOFF(f'{W}[0][0]')} == 0)",
         f"implies({M} >= 1, {GEND(LAST(f'{M} - 1'))} == {pos})",
         f"implies({M} == 0, {pos} == 0)",
+    ]
+
+
+def tiling_iw(pos):
+    """the same facts inside the split loops, stated with i_worker (lists 0..i_worker are in
+    use, the last of them may still be empty)"""
+    return [
+        f"all(len({W}[w]) >= 1 for w in range(i_worker))",
+        f"all(len({W}[w]) == 0 for w in range(i_worker + 1, len({W})))",
+        f"all({W}[w][k][0] in {D} and 0 <= {W}[w][k][1] and {W}[w][k][1] < {W}[w][k][2] "
+        f"and {W}[w][k][2] <= {D}[{W}[w][k][0]] "
+        f"for w in range(i_worker + 1) for k in range(len({W}[w])))",
+        f"all(0 <= index_of({L}, {W}[w][k][0]) and index_of({L}, {W}[w][k][0]) < len({L}) "
+        f"and {L}[index_of({L}, {W}[w][k][0])] == {W}[w][k][0] "
+        f"for w in range(i_worker + 1) for k in range(len({W}[w])))",
+        f"all({GEND(f'{W}[w][k]')} == {GOFF(f'{W}[w][k + 1]')} "
+        f"for w in range(i_worker + 1) for k in range(len({W}[w]) - 1))",
+        f"all(implies(len({W}[w + 1]) >= 1, {GEND(LAST('w'))} == {GOFF(f'{W}[w + 1][0]')}) "
+        f"for w in range(i_worker))",
+        f"implies(len({W}[0]) >= 1, {GOFF(f'{W}[0][0]')} == 0)",
+        f"implies(len({W}[i_worker]) >= 1, {GEND(LAST('i_worker'))} == {pos})",
+        f"implies(len({W}[i_worker]) == 0 and i_worker >= 1, {GEND(LAST('i_worker - 1'))} == {pos})",
+        f"implies(len({W}[i_worker]) == 0 and i_worker == 0, {pos} == 0)",
     ]
 
 
@@ -83,85 +107,261 @@ FACTS_D = [
     "n_per >= 0 and n_per * n_processors >= n_total_cells",
 ]
 
-FINAL = tiling('n_total_cells')
+FINAL = tiling_m('n_total_cells')
 
 record('Proc', pid='Int', exitcode='Opt[Int]')
 
-contract(
-    M_ + '_process_chunk_spec',
-    properties=['C09'], trusted=True,
-    params=dict(chunk_specification_list=f'List[{CHUNK}]', rows_at_a_time='Int', buffer_path='Name'),
-    returns='None',
-    note="placeholder frame contract (does not modify the work list it is given)",
-)
+SPECS = 'chunk_specification_list'
+SPEC_OK = (f"all(0 <= {SPECS}[q][1] and {SPECS}[q][1] <= {SPECS}[q][2] and "
+           f"{SPECS}[q][2] <= len(h5ad_names({SPECS}[q][0], 'obs')) for q in range(len({SPECS})))")
 
 contract(
-    M_ + '_precompute_summary_stats_from_h5ad_and_lookup#split',
-    properties=['C09', 'C04'],
+    M_ + '_process_chunk_spec',
+    properties=['C09'],
     mode='slice',
-    tracked=['data_path_list', 'data_path', 'cell_name_list', 'desired_cells', 'n_overlap', 'n_cells', 'path_to_cells',
-             'n_total_cells', 'new_data_path_list', 'new_path', 'buffer_dir', 'n_per', 'n_processors',
-             'work_load', 'i_worker', 'this_n_cells', 'r0', 'r1', 'rows_at_a_time', 'to_pop', 'ii',
-             'buffer_path_list', 'buffer_path', 'work_spec', 'p', 'tmp_created', 'started'],
+    tracked=[SPECS, 'chunk_spec', 'iterator', 'iterator_path', 'cell_name_list', 'chunk',
+             'cell_name_to_output_row', 'bad_row_idx', 'n_clusters', 'rows_at_a_time'],
     unexpected_exceptions='allowed',
-    params=dict(data_path_list='List[Name]', rows_at_a_time='Int', n_processors='Int',
-                buffer_dir='Opt[Name]'),
-    locals=dict(path_to_cells='Dict[Name,Int]', new_data_path_list='List[Name]', n_cells='Int',
-                n_overlap='Int', data_path='Name', new_path='Name', desired_cells='Set[Name]',
-                work_load=f'List[List[{CHUNK}]]', to_pop='List[Int]', buffer_path_list='List[Name]',
+    params=dict(chunk_specification_list=f'List[{CHUNK}]', rows_at_a_time='Int',
+                cell_name_to_output_row='Dict[Name,Int]', bad_row_idx='Int', n_clusters='Int',
                 buffer_path='Name'),
-    ghost=dict(vars={'tmp_created': 'List[Name]', 'started': 'Set[Int]'}, mutators=['mkstemp_clean']),
-    assumptions=['A-H5AD: obs/var names of an input file are a function of its path during the run',
-                 'A-TMP: mkstemp_clean never returns the same path twice',
-                 'A-PATH: pathlib.Path(x) names the same file as x'],
+    locals=dict(iterator='Opt[PcRowIter]', iterator_path='Opt[Name]', cell_name_list='List[Name]'),
+    returns='None',
     requires=[
-        # valid configuration: at least one worker, positive chunk size, a split into distinct files
-        "n_processors >= 1", "rows_at_a_time >= 1", "dupfree(data_path_list)",
+        # every work item is a row range of its file
+        SPEC_OK,
+        # the lookup maps cells to rows of the buffers; the sentinel is not such a row
+        "all(0 <= cell_name_to_output_row[k] and cell_name_to_output_row[k] < n_clusters "
+        "for k in cell_name_to_output_row)",
+        "bad_row_idx < 0 or bad_row_idx >= n_clusters", "n_clusters >= 0",
+    ],
+    ensures=[f"{SPECS} == old({SPECS})"],
+    loops={
+        # the cached iterator and obs names belong to the file of the work item being processed
+        0: [f"{SPECS} == old({SPECS})",
+            "implies(iterator is not None, iterator_path is not None and bound('cell_name_list') and "
+            "iterator.h5ad_path == iterator_path and "
+            "iterator.n_rows == len(h5ad_names(some(iterator_path), 'obs')) and "
+            "cell_name_list == h5ad_names(some(iterator_path), 'obs'))"],
+    },
+    inline_asserts={
+        # the chunk handed to _process_chunk is rows r0:r1 of the file named by the work item,
+        # together with the obs names of that same file
+        'chunk = iterator.get_chunk(': [
+            "chunk[1] == chunk_spec[1] and chunk[2] == chunk_spec[2]",
+            "iterator_path == chunk_spec[0]",
+            "len(cell_name_list) == len(h5ad_names(chunk_spec[0], 'obs'))",
+            "all(cell_name_list[i] == h5ad_names(chunk_spec[0], 'obs')[i] for i in range(len(cell_name_list)))",
+            "cell_name_list == h5ad_names(chunk_spec[0], 'obs')"],
+    },
+)
+
+NDL = 'new_data_path_list'
+
+LOOP2 = {
+    # no copy: keys of D are among the files already visited, nothing is created
+    False: [f"all({D}[k] >= 0 for k in {D})", "len(started) == 0",
+            f"all({D}[k] == len(h5ad_names(k, 'obs')) for k in {D})",
+            f"len({NDL}) == 0", "len(tmp_created) == 0",
+            f"n_total_cells == psum({L}, {D}, _i)",
+            f"all(implies({L}[j] in {D}, j < _i) for j in range(len({L})))"],
+    # copy: D is keyed by the copies made so far, which are the temporary files created so far
+    True: [f"all({D}[k] >= 0 for k in {D})", "len(started) == 0",
+           f"all({D}[k] == len(h5ad_names(k, 'obs')) for k in {D})",
+           f"len(tmp_created) == len({NDL})",
+           f"all({NDL}[j] == tmp_created[j] for j in range(len({NDL})))",
+           f"dupfree({NDL})",
+           f"n_total_cells == psum({NDL}, {D}, len({NDL}))",
+           f"all({NDL}[j] in {D} for j in range(len({NDL})))"],
+}
+
+LEMMA2 = {
+    False: [f"lemma_psum_agree({L}, D0, {L}, {D}, _i)"],
+    True: [f"lemma_psum_agree(N0, D0, {NDL}, {D}, len(N0))"],
+}
+
+for copy in (False, True):
+    contract(
+        M_ + '_precompute_summary_stats_from_h5ad_and_lookup#split' + ('_copy' if copy else ''),
+        properties=['C09', 'C04'],
+        mode='slice',
+        tracked=['data_path_list', 'data_path', 'cell_name_list', 'desired_cells', 'n_overlap', 'n_cells',
+                 'path_to_cells', 'n_total_cells', 'new_data_path_list', 'new_path', 'buffer_dir', 'n_per',
+                 'n_processors', 'work_load', 'i_worker', 'this_n_cells', 'r0', 'r1', 'rows_at_a_time',
+                 'to_pop', 'ii', 'buffer_path_list', 'buffer_path', 'work_spec', 'p', 'tmp_created',
+                 'started', 'cell_name_to_output_row', 'cell_name_to_cluster_name', 'cluster_to_output_row',
+                 'cell_name', 'n_clusters', 'bad_row_idx'],
+        unexpected_exceptions='allowed',
+        params=dict(data_path_list='List[Name]', rows_at_a_time='Int', n_processors='Int',
+                    buffer_dir='Opt[Name]', cell_name_to_cluster_name='Dict[Name,Name]',
+                    cluster_to_output_row='Dict[Name,Int]'),
+        locals=dict(path_to_cells='Dict[Name,Int]', new_data_path_list='List[Name]', n_cells='Int',
+                    n_overlap='Int', data_path='Name', new_path='Name', desired_cells='Set[Name]',
+                    work_load=f'List[List[{CHUNK}]]', to_pop='List[Int]', buffer_path_list='List[Name]',
+                    buffer_path='Name', cell_name_to_output_row='Dict[Name,Int]'),
+        ghost=dict(vars={'tmp_created': 'List[Name]', 'started': 'Set[Int]'}, mutators=['mkstemp_clean'],
+                   # path pruning: the path condition is full of quantified invariants, on which the
+                   # feasibility probe only times out (dead branches are decided by ground facts)
+                   feasible_ms=60),
+        assumptions=['A-H5AD: obs/var names of an input file are a function of its path during the run',
+                     'A-TMP: mkstemp_clean never returns the same path twice',
+                     'A-PATH: pathlib.Path(x) names the same file as x'],
+        requires=[
+            # valid configuration: at least one worker, positive chunk size, a split into distinct
+            # files; the two views (data copied to a fast scratch directory or not) cover every call
+            "n_processors >= 1", "rows_at_a_time >= 1", "dupfree(data_path_list)",
+            "buffer_dir is not None" if copy else "buffer_dir is None",
+            # guaranteed by the callers (precompute_summary_stats_from_h5ad_and_tree / _list_and_tree):
+            # every cell's cluster has an output row; rows are the indices 0 .. n_clusters-1
+            "all(cell_name_to_cluster_name[c] in cluster_to_output_row for c in cell_name_to_cluster_name)",
+            "all(0 <= cluster_to_output_row[k] and cluster_to_output_row[k] < len(cluster_to_output_row) "
+            "for k in cluster_to_output_row)",
+        ],
+        ensures=[],
+        inline_asserts={
+            'cell_name_list = list(': ["ghost D0 = path_to_cells", "ghost N0 = new_data_path_list"],
+            'if n_overlap > 0': LEMMA2[copy],
+            'n_per = np.ceil(': ["n_per >= 0", "n_per * n_processors >= n_total_cells"],
+            # C09.a index bound: the worker index stays in range when it advances (the one
+            # non-linear step: (i_worker+1)*(n_per+1) <= rows handed out <= n_total <= n_per*n_processors)
+            'i_worker += 1': ["i_worker * (n_per + 1) <= n_per * n_processors and i_worker < n_processors"],
+            # C09.a / C04.d: the work lists are final before the first buffer / worker is created
+            'buffer_path_list = []': FINAL + [f"len({W}) == {M}", "len(started) == 0"],
+        },
+        loops={
+            # C09.b: the cell -> buffer row lookup only holds rows of the buffers
+            1: ["all(0 <= cell_name_to_output_row[k] and cell_name_to_output_row[k] < n_clusters "
+                "for k in cell_name_to_output_row)"],
+            2: LOOP2[copy],
+            3: [f"len({W}) == ii", f"all(len({W}[w]) == 0 for w in range(len({W})))", "0 <= ii"],
+            4: FACTS_D + SCALARS + [f"i_worker * (n_per + 1) + this_n_cells <= {POS4}",
+                                    f"{POS4} <= n_total_cells"] + tiling_iw(POS4) + FINAL[0:3],
+            5: FACTS_D + SCALARS + [f"i_worker * (n_per + 1) + this_n_cells <= {POS5}", "0 <= r0",
+                                    # the file being split ends inside the row space
+                                    f"psum({L}, {D}, _i4) + n_cells <= n_total_cells", "0 <= n_cells",
+                                    f"psum({L}, {D}, _i4) >= 0"] + tiling_iw(POS5) + FINAL[0:3],
+            6: FINAL[0:3] + [f"len(to_pop) == (ii - {M} if ii > {M} else 0)", "0 <= ii",
+                f"all(to_pop[j] == {M} + j for j in range(len(to_pop)))"],
+            7: [f"len(_it) == n_processors - {M}",
+                f"all({M} <= _it[j] and _it[j] < n_processors for j in range(len(_it)))",
+                "all(_it[a] > _it[b] for a in range(len(_it)) for b in range(len(_it)) if a < b)",
+                f"len({W}) == n_processors - _i",
+                f"implies(_i < len(_it), _it[_i] < len({W}))",
+                ] + FINAL,
+            8: FINAL + [f"len({W}) == {M}", "len(buffer_path_list) == _i",
+                        f"len(tmp_created) == len({NDL}) + len(buffer_path_list)",
+                        f"all(buffer_path_list[j] == tmp_created[len({NDL}) + j] "
+                        "for j in range(len(buffer_path_list)))",
+                        "dupfree(tmp_created)"],
+            # C04.d: the merge loop walks buffer_path_list itself, which lists the buffers in
+            # creation order, one per work list, all distinct
+            11: ["_it == buffer_path_list", f"len(_it) == len({W})",
+                 f"all(_it[j] == tmp_created[len({NDL}) + j] for j in range(len(_it)))",
+                 "dupfree(_it)"],
+        },
+    )
+
+
+# ---------------------------------------------------------------------------------------------
+# C09.b  _process_chunk: row -> cluster row
+# ---------------------------------------------------------------------------------------------
+LOOKUP = 'cell_name_to_output_row'
+NAMES = 'cell_name_list'
+LABEL = (f"({LOOKUP}[{NAMES}[r0 + i]] if {NAMES}[r0 + i] in {LOOKUP} else bad_row_idx)")
+
+
+def _gen_process_chunk(rng, size):
+    import numpy as np
+    n_clusters = rng.randint(1, 4)
+    n_file = rng.randint(1, size + 3)
+    names = [f"c{i}" for i in range(n_file)]
+    lookup = {nm: rng.randint(0, n_clusters - 1) for nm in names if rng.random() < 0.7}
+    r0 = rng.randint(0, n_file - 1)
+    r1 = rng.randint(r0 + 1, n_file)
+    n_genes = rng.randint(1, 3)
+    data = np.array([[float(rng.randint(0, 4)) for _ in range(n_genes)] for _ in range(r1 - r0)])
+    buf = {'n_cells': np.zeros(n_clusters, dtype=int)}
+    for k, dt in (('sum', float), ('sumsq', float), ('gt0', int), ('gt1', int), ('ge1', int)):
+        buf[k] = np.zeros((n_clusters, n_genes), dtype=dt)
+    return dict(chunk=(data, r0, r1), gene_names=[f"g{i}" for i in range(n_genes)],
+                cell_name_to_output_row=lookup, cell_name_list=names, bad_row_idx=-999,
+                normalization='log2CPM', n_clusters=n_clusters, buffer_dict=buf)
+
+
+contract(
+    M_ + '_process_chunk',
+    properties=['C09'],
+    mode='slice',
+    tracked=['chunk', 'r0', 'r1', 'cluster_chunk', 'unq_cluster', 'valid', NAMES, LOOKUP,
+             'bad_row_idx', 'n_clusters'],
+    unexpected_exceptions='allowed',
+    params=dict(chunk='Tuple[Opaque,Int,Int]', cell_name_to_output_row='Dict[Name,Int]',
+                cell_name_list='List[Name]', bad_row_idx='Int', n_clusters='Int'),
+    requires=[
+        # the chunk is a row range of the file whose obs names are cell_name_list
+        f"0 <= chunk[1] and chunk[1] <= chunk[2] and chunk[2] <= len({NAMES})",
+        # the lookup maps cells to rows of the buffers; the sentinel is not such a row
+        f"all(0 <= {LOOKUP}[k] and {LOOKUP}[k] < n_clusters for k in {LOOKUP})",
+        "bad_row_idx < 0 or bad_row_idx >= n_clusters",
     ],
     ensures=[],
     inline_asserts={
-        'cell_name_list = list(': ["ghost D0 = path_to_cells", "ghost N0 = new_data_path_list"],
-        'if n_overlap > 0': [
-            f"lemma_psum_agree({L}, D0, {L}, {D}, _i)",
-            f"lemma_psum_agree(N0, D0, new_data_path_list, {D}, len(N0))"],
-        'n_per = np.ceil(': ["n_per >= 0", "n_per * n_processors >= n_total_cells"],
-        'buffer_path_list = []': FINAL + [f"len({W}) == {M}", "len(started) == 0"],
+        'cluster_chunk = np.array(': [
+            "len(cluster_chunk) == r1 - r0",
+            f"all(cluster_chunk[i] == {LABEL} for i in range(r1 - r0))"],
+        'valid = np.sort(valid)': [
+            # the rows handed to the accumulation are exactly the rows labelled unq_cluster, once each
+            "sorted_strict(valid)",
+            "all(0 <= valid[j] and valid[j] < r1 - r0 and cluster_chunk[valid[j]] == unq_cluster "
+            "for j in range(len(valid)))",
+            "all(implies(cluster_chunk[i] == unq_cluster, any(valid[j] == i for j in range(len(valid)))) "
+            "for i in range(r1 - r0))",
+            # ... i.e. cells named by the lookup whose row is unq_cluster; the sentinel never gets here
+            "unq_cluster != bad_row_idx",
+            "0 <= unq_cluster and unq_cluster < n_clusters",
+            f"all({NAMES}[r0 + valid[j]] in {LOOKUP} and {LOOKUP}[{NAMES}[r0 + valid[j]]] == unq_cluster "
+            "for j in range(len(valid)))",
+            f"all(implies({NAMES}[r0 + i] in {LOOKUP} and {LOOKUP}[{NAMES}[r0 + i]] == unq_cluster, "
+            "any(valid[j] == i for j in range(len(valid)))) for i in range(r1 - r0))",
+        ],
     },
     loops={
-        2: [f"all({D}[k] >= 0 for k in {D})", "len(started) == 0",
-            "len(tmp_created) == len(new_data_path_list)",
-            "all(new_data_path_list[j] == tmp_created[j] for j in range(len(new_data_path_list)))",
-            # no copy: keys are among the files already visited
-            f"implies(buffer_dir is None, len(new_data_path_list) == 0 and "
-            f"n_total_cells == psum({L}, {D}, _i) and "
-            f"all(implies({L}[j] in {D}, j < _i) for j in range(len({L}))))",
-            # copy: keys are exactly the copies made so far
-            f"implies(buffer_dir is not None, dupfree(new_data_path_list) and "
-            f"n_total_cells == psum(new_data_path_list, {D}, len(new_data_path_list)) and "
-            f"all(p in {D} for p in new_data_path_list) and "
-            f"all(any(new_data_path_list[j] == k for j in range(len(new_data_path_list))) for k in {D}))",
-            ],
-        3: [f"len({W}) == ii", f"all(len({W}[w]) == 0 for w in range(len({W})))", "0 <= ii"],
-        4: FACTS_D + SCALARS + [f"i_worker * (n_per + 1) + this_n_cells <= {POS4}",
-                                f"{POS4} <= n_total_cells"] + tiling(POS4),
-        5: FACTS_D + SCALARS + [f"i_worker * (n_per + 1) + this_n_cells <= {POS5}", "0 <= r0",
-                                # the file being split ends inside the row space
-                                f"psum({L}, {D}, _i4) + n_cells <= n_total_cells", "0 <= n_cells",
-                                f"psum({L}, {D}, _i4) >= 0"] + tiling(POS5),
-        6: [f"len(to_pop) == (ii - {M} if ii > {M} else 0)", "0 <= ii",
-            f"all(to_pop[j] == {M} + j for j in range(len(to_pop)))"],
-        7: [f"len(_it) == n_processors - {M}",
-            f"all({M} <= _it[j] and _it[j] < n_processors for j in range(len(_it)))",
-            "all(_it[a] > _it[b] for a in range(len(_it)) for b in range(len(_it)) if a < b)",
-            f"len({W}) == n_processors - _i",
-            f"implies(_i < len(_it), _it[_i] < len({W}))",
-            ] + FINAL,
-        8: FINAL + [f"len({W}) == {M}", "len(buffer_path_list) == _i",
-                    "len(tmp_created) == len(new_data_path_list) + len(buffer_path_list)",
-                    "all(buffer_path_list[j] == tmp_created[len(new_data_path_list) + j] "
-                    "for j in range(len(buffer_path_list)))"],
-        11: ["_it == buffer_path_list", f"len(_it) == len({W})",
-             "all(_it[j] == tmp_created[len(new_data_path_list) + j] for j in range(len(_it)))",
-             "dupfree(_it)"],
+        # every label occurring in the chunk is visited, each once (np.unique is strictly increasing)
+        0: ["sorted_strict(_it)",
+            "all(any(_it[j] == cluster_chunk[i] for j in range(len(_it))) for i in range(len(cluster_chunk)))",
+            "len(cluster_chunk) == r1 - r0",
+            f"all(cluster_chunk[i] == {LABEL} for i in range(r1 - r0))"],
     },
+    native=dict(gen=_gen_process_chunk),
+)
+
+
+ROWS_OF_C = ("[i for i in range(chunk[1], chunk[2]) if cell_name_list[i] in cell_name_to_output_row "
+             "and cell_name_to_output_row[cell_name_list[i]] == c]")
+
+contract(
+    M_ + '_process_chunk#effect',
+    properties=['C09'],
+    mode='bounded',
+    params=dict(chunk='Tuple[Opaque,Int,Int]', gene_names='List[Name]', cell_name_to_output_row='Dict[Name,Int]',
+                cell_name_list='List[Name]', bad_row_idx='Int', normalization='Name', n_clusters='Int',
+                buffer_dict='Opaque'),
+    requires=[
+        f"0 <= chunk[1] and chunk[1] <= chunk[2] and chunk[2] <= len({NAMES})",
+        f"all(0 <= {LOOKUP}[k] and {LOOKUP}[k] < n_clusters for k in {LOOKUP})",
+        "bad_row_idx < 0 or bad_row_idx >= n_clusters",
+    ],
+    ensures=[
+        # C09.b on the real buffers: every labelled row is added to its cluster's row, the others to none
+        f"all(buffer_dict['n_cells'][c] == old(buffer_dict)['n_cells'][c] + len({ROWS_OF_C}) "
+        "for c in range(n_clusters))",
+        f"all(abs(buffer_dict['sum'][c, g] - old(buffer_dict)['sum'][c, g] - "
+        f"sum(chunk[0][i - chunk[1], g] for i in {ROWS_OF_C})) < 1e-9 "
+        "for c in range(n_clusters) for g in range(len(gene_names)))",
+        f"all(buffer_dict['gt0'][c, g] == old(buffer_dict)['gt0'][c, g] + "
+        f"len([i for i in {ROWS_OF_C} if chunk[0][i - chunk[1], g] > 0]) "
+        "for c in range(n_clusters) for g in range(len(gene_names)))",
+    ],
+    native=dict(gen=_gen_process_chunk, bound='files <= 7 cells, <= 3 clusters, <= 3 genes; dense log2CPM chunk',
+                env=dict(sum=sum, abs=abs, len=len, range=range)),
 )
